@@ -28,9 +28,10 @@ Loop == 0
 
 VARIABLES stop, fready, note, lpc, pc, ip, woken, hasWaker, out, niter, finished, everBlocked,
           pollPending,   \* ghost: a waker stored future_ready and no poll has started since
+          wpend,         \* variant wakeup_coalesced only: "a wake-up has been sent and not yet consumed" flag of LoopSignal
           mon, hist, sched
-vars == <<stop, fready, note, lpc, pc, ip, woken, hasWaker, out, niter, finished, pollPending, mon, hist, sched, everBlocked>>
-ProtoView == <<stop, fready, note, lpc, pc, ip, woken, hasWaker, out, niter, finished, pollPending>>
+vars == <<stop, fready, note, lpc, pc, ip, woken, hasWaker, out, niter, finished, pollPending, wpend, mon, hist, sched, everBlocked>>
+ProtoView == <<stop, fready, note, lpc, pc, ip, woken, hasWaker, out, niter, finished, pollPending, wpend>>
 
 Feed(m, evs) == FoldLeft(LAMBDA acc, e : CStep(acc, e, 0), m, evs)
 Emit(evs, t) == /\ mon' = Feed(mon, evs)
@@ -58,7 +59,7 @@ RunTo(t, i, w, evs) ==
 Init ==
   /\ stop = FALSE /\ fready = FALSE /\ note = FALSE /\ lpc = "start"
   /\ pc = [t \in T |-> "start"] /\ ip = [t \in T |-> 1] /\ woken = 0 /\ hasWaker = FALSE /\ out = -2 /\ niter = 0
-  /\ finished = FALSE /\ pollPending = FALSE /\ everBlocked = FALSE
+  /\ finished = FALSE /\ pollPending = FALSE /\ everBlocked = FALSE /\ wpend = FALSE
   /\ mon = Feed(CEmpty, <<ResetEv>>) /\ hist = (IF RecordHist THEN <<ResetEv>> ELSE <<>>) /\ sched = <<>>
 
 Apply(t, r) == /\ ip' = [ip EXCEPT ![t] = r.ip] /\ pc' = [pc EXCEPT ![t] = r.pc] /\ woken' = r.woken
@@ -71,7 +72,9 @@ WorkerStep(t) ==
             /\ stop' = TRUE /\ pc' = [pc EXCEPT ![t] = "st_after"] /\ Emit(<<Y(t, "signal.stop.after")>>, t)
             /\ UNCHANGED <<ip, woken, fready, note, pollPending>>
        [] pc[t] = "wu_before" ->
-            /\ note' = TRUE /\ pc' = [pc EXCEPT ![t] = "wu_after"] /\ Emit(<<Y(t, "signal.wakeup.after")>>, t)
+            \* (variant wakeup_coalesced: wakeup() notifies only if no earlier wake-up is still marked as pending; the mark
+            \*  is cleared when the loop is about to wait, long after the notification itself was consumed)
+            /\ note' = (IF "wakeup_coalesced" \in Variants /\ wpend THEN note ELSE TRUE) /\ pc' = [pc EXCEPT ![t] = "wu_after"] /\ Emit(<<Y(t, "signal.wakeup.after")>>, t)
             /\ UNCHANGED <<ip, woken, stop, fready, pollPending>>
        [] pc[t] = "k_before" ->
             \* the waker: store(future_ready, true) ...
@@ -87,6 +90,7 @@ WorkerStep(t) ==
        [] OTHER -> \* st_after / wu_after: the call returns
             LET r == RunTo(t, ip[t] + 1, woken, <<Ret(t, ip[t] - 1, Scripts[t][ip[t]], "ok")>>) IN
             Apply(t, r) /\ Emit(r.evs, t) /\ UNCHANGED <<stop, fready, note, pollPending>>
+  /\ wpend' = (IF pc[t] = "wu_before" /\ "wakeup_coalesced" \in Variants THEN TRUE ELSE wpend)
   /\ UNCHANGED <<lpc, hasWaker, out, niter, finished, everBlocked>>
 
 LRet(extra) == [e |-> "lret", op |-> LoopOp, k |-> 0, r |-> "ok"] @@ extra
@@ -142,13 +146,14 @@ LoopStep ==
                       Y(0, IF Mode = "run" THEN "loop.run.before_stop_check" ELSE "blockon.before_stop_check")>>, Loop)
             /\ UNCHANGED <<stop, fready, note, hasWaker, out, pollPending>>
   /\ everBlocked' = (everBlocked \/ lpc' = "waiting")
+  /\ wpend' = (IF lpc = "wait_before" THEN FALSE ELSE wpend)
   /\ UNCHANGED <<pc, ip, woken, finished>>
 
 \* the blocked wait returns once a notification arrives (not a scheduler step: the thread wakes by itself)
 LoopWake ==
   /\ lpc = "waiting" /\ note
   /\ note' = FALSE /\ lpc' = "wait_after" /\ Emit(<<Y(0, "loop.wait.after")>>, Loop)
-  /\ UNCHANGED <<stop, fready, pc, ip, woken, hasWaker, out, niter, finished, pollPending, everBlocked>>
+  /\ UNCHANGED <<stop, fready, pc, ip, woken, hasWaker, out, niter, finished, pollPending, everBlocked, wpend>>
 
 WorkersDone == \A t \in T : pc[t] = "done"
 Final ==
@@ -156,7 +161,7 @@ Final ==
   /\ \/ lpc = "barrier" /\ Emit(<<[e |-> "loop_done"], [e |-> "end", id |-> "model", stuck |-> 0, loop_ok |-> 1]>>, Loop)
      \/ lpc = "waiting" /\ ~note /\ Emit(<<[e |-> "loop_stuck"], [e |-> "end", id |-> "model", stuck |-> 0, loop_ok |-> 0]>>, Loop)
   /\ finished' = TRUE /\ lpc' = IF lpc = "barrier" THEN "done" ELSE lpc
-  /\ UNCHANGED <<stop, fready, note, pc, ip, woken, hasWaker, out, niter, pollPending, everBlocked>>
+  /\ UNCHANGED <<stop, fready, note, pc, ip, woken, hasWaker, out, niter, pollPending, everBlocked, wpend>>
 
 Next == (\E t \in T : WorkerStep(t)) \/ LoopStep \/ LoopWake \/ Final
 Spec == Init /\ [][Next]_vars
